@@ -332,7 +332,7 @@ def check(run: Run):
         g_dir = Graph(recs)
         g_sql = Graph(r for r in recs if not (r["act"] in ("Write", "WriteNC", "DropNC") and r["args"][-1]))
         stats = {}
-        budget = None if tier == "thorough" else int(os.environ.get("VERIF_C13_BUDGET", "15000"))
+        budget = None if tier == "thorough" else int(os.environ.get("VERIF_C13_BUDGET", "9000"))
         for name, g, ad in (("dir", g_dir, DirAdapter(ids, logids, scratch)), ("sqlite", g_sql, SqliteAdapter(ids, logids, scratch))):
             st = explore(g, init, ad, run, seed=run.seed, budget=budget)
             stats[name] = st
